@@ -26,6 +26,12 @@ layer, its ``next_layer`` hook is answered by the real ``NextLayer().next_layer`
 ClientTLSLayer and HttpLayer up front), TlsConfig supplies the TLS connection, and the client's view of the negotiated
 protocol on this secure-web-proxy *outer* connection is judged (only http/1.1 or none).  The history leg uses this real
 stack for its outer handshake as well.
+
+A fifth leg ("pair") takes the upstream protocol from a REAL upstream handshake instead of a preset attribute: the real
+``ServerTLSLayer`` >> ``ClientTLSLayer`` pair (eager strategy, upstream TLS first) is driven with two in-memory stdlib
+``ssl`` peers -- an upstream server that supports no ALPN / h2+http/1.1 / http/1.1 / h2 / only unknown protocols, and a
+client with its offer list.  What the *upstream peer* reports as negotiated (a protocol, or nothing = "known, none
+negotiated") is the oracle's upstream value; the client must get exactly that protocol or none.
 """
 import itertools
 import ssl
@@ -52,12 +58,13 @@ LEVEL = "exploration"
 EXHAUSTIVE = True
 ENGINE = "direct"
 TECHNIQUE = "exhaustive enumeration of the ALPN decision table + real in-memory handshakes"
-BUDGET = {"quick": (1_200, 18), "thorough": (6_000, 200)}
+BUDGET = {"quick": (1_200, 18), "thorough": (5_000, 200)}
 WORKERS = {"quick": 2, "thorough": 16}
 REQUIRED = ["callback.offered_or_none", "callback.upstream_or_none", "callback.no_h2_when_disabled",
             "callback.outer_http11_only", "callback.selected_some", "handshake.oracle", "handshake.selected_some",
             "history.outer.oracle", "history.inner.oracle", "history.inner.selected_some", "history.inner_after_outer_alpn",
-            "realstack.outer_http11_only", "realstack.selected_some"]
+            "realstack.outer_http11_only", "realstack.selected_some",
+            "pair.oracle", "pair.upstream_negotiated_none", "pair.upstream_negotiated_some", "pair.client_selected_some"]
 RULE = (
     "case = (layer stack, upstream ALPN, http2 option, client offer list); the callback leg enumerates all 3 x 8 x 2 x 259 "
     "combinations (offer lists of length<=3 over 6 protocol classes, ordered, with repetition) in both tiers; the handshake "
@@ -66,7 +73,9 @@ RULE = (
     "connection through the real ClientTLSLayer: outer offer in {no ALPN, [http/1.1], [h2,http/1.1], [h2], [x-unknown,http/1.1]} x "
     "upstream x http2 x inner offer (quick: 13 lists incl. every single protocol and pairs containing the outer protocol; "
     "thorough: all lists of length<=2 plus random ones); the realstack leg (layer stack built by the real NextLayer addon under "
-    "HttpProxy / HttpUpstreamProxy) enumerates all offer lists of length<=2 (thorough: <=3) x http2; distinct = distinct (leg, stack, upstream, http2, offer "
+    "HttpProxy / HttpUpstreamProxy) enumerates all offer lists of length<=2 (thorough: <=3) x http2; the pair leg (real "
+    "ServerTLSLayer handshake first against an in-memory upstream peer, then the client handshake) enumerates 6 upstream ALPN "
+    "configurations x http2 x 2 stacks x 12 client offer lists (thorough: all lists of length<=2 plus random ones); distinct = distinct (leg, stack, upstream, http2, offer "
     "classes[, outer offer]) combination; non-trivial = the client offers at least one protocol"
 )
 ASSUMPTIONS = [
@@ -377,6 +386,145 @@ def run_realstack(ctx, w, top_cls, http2, offers):
     return sel if sel == NONE else cls_of(sel)
 
 
+# ---- real upstream handshake first, then the client handshake (ServerTLSLayer >> ClientTLSLayer) -----------------------------
+
+UPSTREAM_PEERS = [(), ("h2", "http/1.1"), ("http/1.1",), ("h2",), ("x-unknown",), ("h3", "x-unknown", "http/1.0")]
+PAIR_CLIENT_QUICK = [None] + [(p,) for p in PROTOS] + [(b"h2", b"http/1.1"), (b"http/1.1", b"h2"), (b"h3", b"h2"), (b"x-unknown", b"h2"),
+                                                        (b"http/1.0", b"x-unknown")]
+
+
+class Peer:
+    """A stdlib-ssl TLS endpoint over memory BIOs."""
+
+    def __init__(self, sslctx, server_side):
+        self.inc, self.out = ssl.MemoryBIO(), ssl.MemoryBIO()
+        self.obj = sslctx.wrap_bio(self.inc, self.out, server_side=server_side, server_hostname=None if server_side else "example.com")
+        self.done = False
+
+    def step(self, data=b""):
+        if data:
+            self.inc.write(data)
+        try:
+            if not self.done:
+                self.obj.do_handshake()
+                self.done = True
+            else:
+                self.obj.read(65535)
+        except (ssl.SSLWantReadError, ssl.SSLZeroReturnError):
+            pass
+        return self.out.read()
+
+
+def upstream_pem(w) -> str:
+    """Certificate + key for the in-memory upstream peer (created once per worker)."""
+    if getattr(w, "_upstream_pem", None) is None:
+        from cryptography.hazmat.primitives import serialization
+        from mitmproxy import certs
+        d = tempfile.mkdtemp(prefix="vf-c18-up-")
+        store = certs.CertStore.from_store(d, "upstream", 2048)
+        entry = store.get_cert("example.com", [])
+        path = d + "/upstream.pem"
+        with open(path, "wb") as f:
+            f.write(entry.privatekey.private_bytes(serialization.Encoding.PEM, serialization.PrivateFormat.TraditionalOpenSSL,
+                                                   serialization.NoEncryption()) + entry.cert.to_pem())
+        w._upstream_pem = path
+    return w._upstream_pem
+
+
+def run_pair(ctx, w, stack, upstream_alpn, http2, offers):
+    if w.http2 != http2:
+        w.tctx.configure(w.ta, http2=http2)
+        w.http2 = http2
+    if w.tctx.options.connection_strategy != "eager":
+        w.tctx.options.connection_strategy = "eager"
+    if not w.tctx.options.ssl_insecure:
+        w.tctx.configure(w.ta, ssl_insecure=True)
+    client = connection.Client(peername=("192.0.2.1", 51234), sockname=("127.0.0.1", 8080), timestamp_start=1.0,
+                               state=connection.ConnectionState.OPEN)
+    c = context.Context(client, w.tctx.options)
+    c.server.address = ("example.com", 443)
+    c.server.state = connection.ConnectionState.OPEN  # eager: the TCP connection to the server already exists
+    if stack == "regular-inner":
+        modes.HttpProxy(c)
+        Sink(c)
+    else:
+        modes.TransparentProxy(c)
+    top = layers.ServerTLSLayer(c)
+    top.child_layer = layers.ClientTLSLayer(c)
+
+    cctx = ssl.SSLContext(ssl.PROTOCOL_TLS_CLIENT)
+    cctx.check_hostname = False
+    cctx.verify_mode = ssl.CERT_NONE
+    if offers:
+        cctx.set_alpn_protocols([o.decode("latin-1") for o in offers])
+    sctx = ssl.SSLContext(ssl.PROTOCOL_TLS_SERVER)
+    sctx.load_cert_chain(upstream_pem(w))
+    if upstream_alpn:
+        sctx.set_alpn_protocols(list(upstream_alpn))
+    peers = {c.client: Peer(cctx, False), c.server: Peer(sctx, True)}
+    hooks = []
+    queue = [events.Start()]
+
+    def pump():
+        n = 0
+        while queue:
+            n += 1
+            if n > 300:
+                raise AssertionError("runaway")
+            ev = queue.pop(0)
+            for cmd in list(top.handle_event(ev)):
+                if isinstance(cmd, commands.StartHook):
+                    hooks.append(cmd.name)
+                    if isinstance(cmd, mlayer.NextLayerHook):
+                        cmd.data.layer = Sink(cmd.data.context)
+                    elif hasattr(w.ta, cmd.name):
+                        getattr(w.ta, cmd.name)(*cmd.args())
+                    queue.append(events.HookCompleted(cmd, None))
+                elif isinstance(cmd, commands.OpenConnection):
+                    cmd.connection.state = connection.ConnectionState.OPEN
+                    queue.append(events.OpenConnectionCompleted(cmd, None))
+                elif isinstance(cmd, commands.SendData):
+                    reply = peers[cmd.connection].step(cmd.data)
+                    if reply:
+                        queue.append(events.DataReceived(cmd.connection, reply))
+                elif isinstance(cmd, (commands.Log, commands.CloseConnection, commands.RequestWakeup)):
+                    pass
+                else:
+                    raise AssertionError(f"unexpected command {cmd!r}")
+
+    pump()
+    hello = peers[c.client].step()
+    queue.append(events.DataReceived(c.client, hello))
+    pump()
+    up, cl = peers[c.server], peers[c.client]
+    if not (up.done and cl.done):
+        ctx.count("pair.incomplete")
+        ctx.seen("pair_incomplete", (stack, upstream_alpn, http2, offers, up.done, cl.done))
+        return "incomplete"
+    # ground truth of "the upstream protocol" = what the upstream peer itself negotiated (nothing -> known: none)
+    up_sel = up.obj.selected_alpn_protocol()
+    upstream = up_sel.encode("latin-1") if up_sel is not None else b""
+    sel = cl.obj.selected_alpn_protocol()
+    sel = sel.encode("latin-1") if sel is not None else NONE
+    upstream_first = ("tls_established_server" in hooks and "tls_start_client" in hooks
+                      and hooks.index("tls_established_server") < hooks.index("tls_start_client"))
+    if not upstream_first:
+        ctx.count("pair.upstream_not_first")  # the precondition "upstream already known" did not hold: not judged
+        return "upstream-not-first"
+    ctx.count("pair.oracle")
+    ctx.count("pair.upstream_negotiated_some" if upstream else "pair.upstream_negotiated_none")
+    if sel != NONE:
+        ctx.count("pair.client_selected_some")
+    eff = offers or ()
+    bad = oracle(stack, upstream, http2, eff, sel)
+    if bad:
+        ctx.violation("pair:" + "+".join(bad), {"stack": stack, "upstream_peer_alpn": list(upstream_alpn), "upstream_negotiated": upstream,
+                                                 "http2": http2, "offers": list(eff), "client_got": sel,
+                                                 "server_alpn_attribute": c.server.alpn, "hooks": hooks})
+    ctx.seen("pair_hook_sequences", tuple(hooks))
+    return f"up={cls_of(upstream) if upstream else 'none'},client={cls_of(sel) if sel != NONE else NONE}"
+
+
 def cls_of(p: bytes):
     return p.decode() if p in PROTOS[:5] else "unknown"
 
@@ -401,7 +549,10 @@ def run(ctx):
     rs_space = [(t, h, o) for t in (modes.HttpProxy, modes.HttpUpstreamProxy) for h in (True, False)
                 for o in ([None] + (short_offers if ctx.tier == "quick" else OFFERS))]
     n_rs = len(rs_space)
-    n_fixed = N_ENUM + n_hs_enum + n_hist + n_rs
+    pair_space = [(st, u, h, o) for st in ("transparent", "regular-inner") for u in UPSTREAM_PEERS for h in (True, False)
+                  for o in (PAIR_CLIENT_QUICK if ctx.tier == "quick" else [None] + short_offers)]
+    n_pair = len(pair_space)
+    n_fixed = N_ENUM + n_hs_enum + n_hist + n_rs + n_pair
     n_total = n_fixed + (ctx.n_cases if ctx.tier == "thorough" else 0)
     try:
         for i in ctx.cases(n=n_total):
@@ -429,7 +580,26 @@ def run(ctx):
                 continue
             r = ctx.rng
             hist = None
-            if N_ENUM + n_hs_enum + n_hist <= i < n_fixed:
+            pair = None
+            if N_ENUM + n_hs_enum + n_hist + n_rs <= i < n_fixed:
+                pair = pair_space[i - N_ENUM - n_hs_enum - n_hist - n_rs]
+            elif i >= n_fixed and r.random() < 0.25:
+                pool = PROTOS + [bytes(r.choice(b"abcxyz-/.0129") for _ in range(r.randint(1, 12)))]
+                ups = tuple(r.choice(pool).decode() for _ in range(r.choice([0, 1, 1, 2, 3])))
+                pair = (r.choice(["transparent", "regular-inner"]), ups, r.random() < 0.5, tuple(r.choice(pool) for _ in range(r.randint(1, 5))))
+            if pair is not None:
+                st, u, h, o = pair
+                try:
+                    outcome = run_pair(ctx, w, st, u, h, o)
+                except Exception as e:
+                    ctx.violation("pair-raises", {"pair": [st, list(u), h, list(o) if o else o], "exc": repr(e)})
+                    outcome = "raises"
+                ctx.case(("pair", st, tuple(cls_of(x.encode()) for x in u), h, tuple(cls_of(x) for x in o) if o is not None else None, outcome),
+                         nontrivial=bool(o),
+                         sample={"leg": "pair", "stack": st, "upstream_peer_alpn": list(u), "http2": h, "offers": list(o) if o else o,
+                                 "outcome": outcome} if i % 53 == 3 else None)
+                continue
+            if N_ENUM + n_hs_enum + n_hist <= i < N_ENUM + n_hs_enum + n_hist + n_rs:
                 t, h, o = rs_space[i - N_ENUM - n_hs_enum - n_hist]
                 try:
                     outcome = run_realstack(ctx, w, t, h, o)
@@ -483,5 +653,6 @@ def run(ctx):
         ctx.extra["enumerated_handshake_combinations"] = n_hs_enum
         ctx.extra["enumerated_two_handshake_histories"] = n_hist
         ctx.extra["enumerated_realstack_handshakes"] = n_rs
+        ctx.extra["enumerated_upstream_first_pairs"] = n_pair
     finally:
         w.close()
